@@ -163,6 +163,7 @@ impl FixedTransaction {
         let body: TransactionBody = deserialize_raw_part(raw_body, "body")?;
         self.body = body;
         self.body_bytes = raw_body.to_vec();
+        self.tx_hash = TransactionHash::from(blake2b256(raw_body));
         Ok(())
     }
 
